@@ -189,7 +189,10 @@ def gen_plan_enum(p, rng, limit):
             ls.append("@0 succeed %d" % a)
         if s == "extF":
             ls.append("@0 fail %d" % a)
-        if pl and idx % 4 == 3:
+        if pl and idx % 8 == 7:
+            # the first task's transition is vetoed and the guard queues another task of the same origin
+            ds = ds + [_key(1, pl[0][1]) + ":X,PC%d.%d" % (pl[0][0], (pl[0][1] + 1) % len(states))]
+        elif pl and idx % 4 == 3:
             ds = ds + [_key(1, pl[0][1]) + ":X"]          # the first task's transition is vetoed: its origin stays active
         ls.append("@0 update | %s" % " ; ".join(ds))
         ls.append("@0 react 1 | %s" % " ; ".join(d.replace("5.", "8.").replace("4.", "7.").replace("6.", "10.") for d in ds))
